@@ -48,10 +48,14 @@ def writeAt (a : Inst) (pos : Nat) (bs : Bytes) : Inst :=
 
 /-- `check_len_or_resize(al, buf_pos)` with `buf_pos` converted to `int`; the growth of the
     internal buffer is `mremap`: same prefix, `MEM_BUFFER` more (zero) bytes. -/
+def growBytes (a : Inst) (bufPos : Nat) : Nat :=
+  -- `while (buf_pos + BUFFER_TOLERANCE > buffer_len) buffer_len += MEM_BUFFER`: as many quanta as the position needs
+  (((toInt32 bufPos + (c_BUFFER_TOLERANCE : Int) - a.bufLen).toNat + c_MEM_BUFFER - 1) / c_MEM_BUFFER) * c_MEM_BUFFER
+
 def checkLenOrResize (a : Inst) (bufPos : Nat) : R Inst :=
   if toInt32 bufPos + (c_BUFFER_TOLERANCE : Int) > a.bufLen then
     if a.external then .error .fail
-    else .ok { a with bufLen := a.bufLen + c_MEM_BUFFER, mem := a.mem ++ List.replicate c_MEM_BUFFER 0 }
+    else .ok { a with bufLen := a.bufLen + growBytes a bufPos, mem := a.mem ++ List.replicate (growBytes a bufPos) 0 }
   else .ok a
 
 /-- `nop_padding(buf, len)` bytes: entries of the regenerated NOP table, longest first. -/
